@@ -705,7 +705,7 @@ fn main() {
     let (mut late, mut late_ok) = (0usize, 0usize);
     let mut samples: Vec<Value> = Vec::new();
     let mut setup_err: Option<String> = None;
-    if !only_codec && !chosen.is_empty() {
+    if !only_codec && !(chosen.is_empty() && late_chosen.is_empty()) {
         let mut codec_map: HashMap<String, Vec<Vec<u8>>> = HashMap::new();
         for c in &codecs {
             codec_map.entry(class_key(&c["hdr"])).or_default().push(bytes_of(&c["bytes"]));
